@@ -5,6 +5,7 @@ package e2
 
 import (
 	"context"
+	"crypto/tls"
 	"errors"
 	"fmt"
 	"github.com/golang/protobuf/proto"
@@ -31,7 +32,9 @@ import (
 	"github.com/vx-labs/wasp/v4/wasp/messages"
 	"github.com/vx-labs/wasp/v4/wasp/transport"
 	"go.uber.org/zap"
+	"github.com/vx-labs/wasp/v4/rpc"
 	"google.golang.org/grpc"
+	"google.golang.org/grpc/credentials"
 	"google.golang.org/grpc/test/bufconn"
 )
 
@@ -243,14 +246,35 @@ func (n *Node) dial(target *Node) *grpc.ClientConn {
 	if c := n.conns[target.ID]; c != nil {
 		return c
 	}
-	c, err := grpc.Dial("bufnet", grpc.WithInsecure(), grpc.WithContextDialer(func(ctx context.Context, _ string) (net.Conn, error) {
+	// the production dial options (interceptor chain, TLS with the verification setting of the default deployment);
+	// only the byte transport is replaced by the in-memory listener of the target node
+	opts := append(rpc.GRPCClientOptions("", "", "", true), grpc.WithContextDialer(func(ctx context.Context, _ string) (net.Conn, error) {
 		return target.lis.Dial()
 	}))
+	c, err := grpc.Dial("bufnet", opts...)
 	if err != nil {
 		panic(err)
 	}
 	n.conns[target.ID] = c
 	return c
+}
+
+var (
+	certOnce sync.Once
+	certVal  *tls.Certificate
+)
+
+// harnessCert is the self-signed certificate a node generates for itself when none is configured (once per process:
+// key generation is the slow part and the key is irrelevant to what is checked).
+func harnessCert() *tls.Certificate {
+	certOnce.Do(func() {
+		c, err := rpc.GenerateSelfSignedCertificate("verif", []string{"*"}, nil)
+		if err != nil {
+			panic(err)
+		}
+		certVal = c
+	})
+	return certVal
 }
 
 func (n *Node) goRun(f func(ctx context.Context)) {
@@ -296,6 +320,11 @@ type World struct {
 	GossipAuto bool
 	// GossipHold, when set, keeps the drained messages for which it returns true (by drain index) in
 	// Pending until DeliverAll.
+	// Seam, when set, is called (on the broker's goroutine) after each session-record call of a connection manager
+	Seam func(n *Node, op, arg string)
+	// GossipLazy: nothing is taken out of the nodes' transmit queues until it is cleared again (the gossip layer drains
+	// them periodically, several operations may queue up in between)
+	GossipLazy bool
 	GossipHold  func(idx int) bool
 	gossipIndex int
 
@@ -370,6 +399,7 @@ func NewWorld(t *testing.T, n int, opts ...NodeOpts) *World {
 		}
 		w.Nodes = append(w.Nodes, w.newNode(uint64(i+1), o))
 	}
+	w.JoinNotices() // cluster formation: every node learns of every other one before any client connects
 	synctest.Wait()
 	return w
 }
@@ -402,7 +432,7 @@ func (w *World) newNode(id uint64, o NodeOpts) *Node {
 	n.Members = wasp.NewNodeMemberManager(id, n.Log, n.DState)
 	rpc := wasp.NewMQTTServer(n.DState, n.Local, n.Log, n.Dist, nil)
 	n.lis = bufconn.Listen(1 << 20)
-	n.srv = grpc.NewServer()
+	n.srv = grpc.NewServer(grpc.Creds(credentials.NewServerTLSFromCert(harnessCert())))
 	rpc.Serve(n.srv)
 	n.wg.Add(1)
 	go func() { defer n.wg.Done(); n.srv.Serve(n.lis) }()
@@ -416,9 +446,61 @@ func (w *World) newNode(id uint64, o NodeOpts) *Node {
 	n.goRun(func(ctx context.Context) { n.Writer.Run(ctx, n.Log) })
 	pp := wasp.NewPacketProcessor(n.Local, n.DState, n.Writer, nopTaps{}, n.Dist, n.Acks)
 	n.goRun(pp.Run)
-	n.Manager = wasp.NewConnectionManager(w.Auth, n.Local, n.DState, n.Writer, pp, n.Acks)
+	n.Manager = wasp.NewConnectionManager(w.Auth, n.Local, &seamState{State: n.DState, w: w, node: n}, n.Writer, pp, n.Acks)
 	n.goRun(n.Manager.Run)
 	return n
+}
+
+// seamState is the replicated state as the connection manager sees it: the real one, plus a seam after each of the
+// session-record calls at which a scenario may let something else happen (World.Seam), e.g. the previous connection of a
+// client going away between the manager's look-up of its record and what the manager does with the answer.
+type seamState struct {
+	distributed.State
+	w    *World
+	node *Node
+}
+type seamSessions struct {
+	distributed.SessionMetadatasState
+	s *seamState
+}
+
+func (s *seamState) SessionMetadatas() distributed.SessionMetadatasState {
+	return &seamSessions{SessionMetadatasState: s.State.SessionMetadatas(), s: s}
+}
+func (x *seamSessions) at(op, arg string) {
+	if f := x.s.w.Seam; f != nil {
+		f(x.s.node, op, arg)
+	}
+}
+func (x *seamSessions) ByClientIDInMountPoint(mp, clientID string) (api.SessionMetadatas, error) {
+	md, err := x.SessionMetadatasState.ByClientIDInMountPoint(mp, clientID)
+	x.at("lookup", clientID)
+	return md, err
+}
+func (x *seamSessions) Delete(id string) error {
+	err := x.SessionMetadatasState.Delete(id)
+	x.at("delete", id)
+	return err
+}
+func (x *seamSessions) Create(id, clientID string, connectedAt int64, lwt *packet.Publish, mountpoint string) error {
+	err := x.SessionMetadatasState.Create(id, clientID, connectedAt, lwt, mountpoint)
+	x.at("create", clientID)
+	return err
+}
+
+// JoinNotices tells every running node that each other running node joined: what the membership layer reports at the
+// first contact and again whenever a known peer's advertised metadata change. It says nothing about the peer's sessions.
+func (w *World) JoinNotices() {
+	for _, n := range w.Nodes {
+		if n.cancel == nil {
+			continue
+		}
+		for _, o := range w.Nodes {
+			if o != n && o.cancel != nil {
+				n.Members.NotifyGossipJoin(o.ID)
+			}
+		}
+	}
 }
 
 // Node returns node i (1-based id).
@@ -472,6 +554,9 @@ func (w *World) Step() { w.Idle(Settle) }
 
 // DrainGossip moves queued broadcasts of every live node to Pending.
 func (w *World) DrainGossip() {
+	if w.GossipLazy {
+		return // broadcasts stay in each node's own transmit queue (where a later one may invalidate an earlier one)
+	}
 	for _, n := range w.Nodes {
 		if n.Dead {
 			continue
